@@ -9,7 +9,6 @@ S=/var/tmp/ruschm-verif/setup-snap
 rm -rf "$S"; mkdir -p "$S"
 rsync -a --exclude /target --exclude /.git /repo/ "$S"/
 mkdir -p "$S/.cargo"; printf '[net]\noffline = true\n' > "$S/.cargo/config.toml"
-( cd "$S" && CARGO_TARGET_DIR="$(pwd -P)/../../../../verif/.cache/kani-target" true )
 ( cd "$S" && CARGO_TARGET_DIR=/verif/.cache/kani-target cargo kani --only-codegen -Z stubbing >/dev/null 2>&1 || true )
 ( cd "$S" && CARGO_TARGET_DIR=/verif/.cache/native-target RUSTFLAGS="--cfg verif_replay -A warnings" cargo test --offline --lib --no-run >/dev/null 2>&1 || true )
 ( cd "$S" && CARGO_TARGET_DIR=/verif/.cache/native-target RUSTFLAGS="--cfg verif_replay -A warnings" cargo test --offline --release --lib --no-run >/dev/null 2>&1 || true )
